@@ -228,6 +228,8 @@ func concPrograms(thorough bool) []*cprog {
 		{Name: "P7 cleanup of a stale waiting session || login || EV", Sess: ev3, Logins: l2, Bound: -1,
 			Prefix: []Op{A(0, 0)}, Threads: [][]Op{{CU, CR}, {L(0)}, {A(0, 1)}}, Suffix: probe1},
 	}
+	ps = append(ps, &cprog{Name: "P9 stale session: cleanup;login (one thread, as in the Read loop) || events of another session", Sess: ev3, Logins: l2, Bound: -1,
+		Prefix: []Op{A(0, 0)}, Threads: [][]Op{{CU, CR, L(0)}, {A(1, 0), A(1, 1)}}, Suffix: probe2})
 	big := []*cprog{
 		{Name: "P2 login || LOGIN+EV || LOGIN+EV of another session", Sess: ev3, Logins: l2, Bound: -1,
 			Threads: [][]Op{{L(0)}, {A(0, 0), A(0, 1)}, {A(1, 0), A(1, 1)}}, Suffix: probe2},
@@ -450,4 +452,43 @@ func schedulerCanary() string {
 		return fmt.Sprintf("lock-order canary: outcomes %v, want both completion and deadlock", st2.OutcomeN)
 	}
 	return ""
+}
+
+// concDuplicates is C10's concurrent half at the correlator: every interleaving of the C03 programs, judged
+// only for "no event is written twice and every write is one whole event".
+func concDuplicates(run *mc.Run) {
+	if msg := schedulerCanary(); msg != "" {
+		run.Note("scheduler self-test failed: %s", msg)
+		return
+	}
+	execs := 0
+	for _, p := range concPrograms(run.Thorough()) {
+		schedChoose = func(n int) int { return sched.Choose(n, "iter") }
+		st := sched.Explore(p.program(), p.Bound, 400000, func(x *sched.Exec) bool { return !run.Expired() })
+		schedChoose = nil
+		execs += st.Executions
+		for o, choices := range st.Outcomes {
+			bad := ""
+			for _, line := range strings.Split(o, "\n") {
+				if strings.HasPrefix(line, "ses BAD") {
+					bad = "a write did not carry exactly one whole JSON event: " + line
+				}
+				if !strings.HasPrefix(line, "ses ") {
+					continue
+				}
+				seen := map[string]bool{}
+				for _, ev := range strings.Fields(line)[2:] {
+					if seen[ev] {
+						bad = "event " + ev + " was written twice: " + line
+					}
+					seen[ev] = true
+				}
+			}
+			if bad != "" {
+				run.Violation("C10:conc:"+strings.Fields(p.Name)[0]+":"+strings.Join(strings.Fields(bad)[:3], "_"), concReplay{p.Name, choices},
+					fmt.Sprintf("program %s, schedule %v: %s", p.Name, choices, bad))
+			}
+		}
+	}
+	run.Note("concurrent half: %d executions of the C03 programs under the scheduler judged for duplicate / torn writes", execs)
 }
